@@ -88,9 +88,9 @@ CHECKS = {
                 text='48k signatures quick, 1.9M thorough over ids/regions/buckets/services/ops/paths of 0..200 unreserved characters, printable-ASCII secrets, bodies absent/empty/1 B..100 KiB, the int expiry range, clock instants 1970..2100; over half the cases use a clock that ticks on every call at a day, leap-day or year boundary.',
                 note='Paths are absolute. The timestamp must be an instant the interposed clock returned, in UTC. Acceptance by the live AWS service is out of scope.'),
     'C20': dict(level='exploration', ref='4/C20',
-                technique='runtime monitoring of the real objects in -O2, -O1+ASan/UBSan and (thorough) -O2 -flto builds, with and without AES-NI: context bytes read back after every *_Final; a free-time hook (under malloc/free via --wrap and under OpenSSL via CRYPTO_set_mem_functions) searches every released block for independently derived secret images',
-                text='Every message length 0..300 (thorough 0..600) for 3 hashes and 3 HMACs on heap and stack; random AES keys with expand/encrypt/free; random AES-CTR scripts incl. init2 re-use; DH with random and extreme x and blinding and entropy failures; eleven failing key-file shapes. Each case carries a positive control (an unwiped block must be reported), else inconclusive.',
-                note='Speaks only for the gcc builds that ran; quick omits -flto. Not observable and not claimed: contexts inside *_Buf helpers and PBKDF2, stack buffers, libc\'s stdio buffer.'),
+                technique='runtime monitoring of the real objects in -O2, -O1+ASan/UBSan and (thorough) -O2 -flto builds, with and without AES-NI: context bytes read back after every *_Final; a free-time hook (under malloc/free via --wrap and under OpenSSL via CRYPTO_set_mem_functions) searches every released block for independently derived secret images; for the DH operations additionally allocation-fault enumeration: every allocation OpenSSL requests during generate_pub/compute/generate is refused in turn (one per run) with the same free-time scan active',
+                text='Every message length 0..300 (thorough 0..600) for 3 hashes and 3 HMACs on heap and stack; random AES keys with expand/encrypt/free; random AES-CTR scripts incl. init2 re-use; DH with random and extreme x and blinding and entropy failures; DH error paths: for 48 (thorough 2400) (x, r, peer) triples per build each of the N counted OpenSSL allocations (56 generate_pub, up to 66 compute) is refused once, about 2,900 (thorough about 145,000) faulted runs per build; eleven failing key-file shapes. Each case carries a positive control (an unwiped block must be reported), else inconclusive.',
+                note='Speaks only for the gcc builds that ran; quick omits -flto. Fault enumeration is single-fault and covers the allocation sites of the installed OpenSSL for the sampled inputs. Not observable and not claimed: contexts inside *_Buf helpers and PBKDF2, stack buffers (incl. blinding[] in blinded_modexp), libc\'s stdio buffer.'),
 }
 
 NOT_BUILT_REASON = 'check not built yet in this revision of /verif (planned, see DESIGN.md section 4)'
